@@ -80,6 +80,7 @@ func (l *TCP) Serve(establish EstablishFn) {
 			return
 		}
 
+		verifAt("tcp.accepted", l.id)
 		if atomic.LoadUint32(&l.end) == 0 {
 			go func() {
 				err = establish(l.id, conn)
